@@ -368,6 +368,10 @@ class SimNetwork:
             delays = [base]
         elif any(b[0] <= self.k.now < b[1] and (len(b) < 3 or b[2] == ep.name) for b in cfg["blackouts"]):
             fate = "blackout"
+        elif getattr(ep, "drop_next", 0) > 0:
+            # targeted loss: the first datagrams after an operation that changes what the peer must understand
+            ep.drop_next -= 1
+            fate = "drop"
         else:
             idx = self.ch.weighted(cfg["fate_weights"])
             fate = ("deliver", "drop", "dup", "delay")[idx]
@@ -620,6 +624,7 @@ class TransportSim:
         cfg["client_idle"] = it[c.choose(len(it))]
         cfg["server_idle"] = it[c.choose(len(it))]
         cfg["initial_rtt"] = (0.1, 0.05, 0.333)[c.choose(3)]
+        cfg["quiet_side"] = c.choose(2) if p.get("quiet_side_p") and c.chance(p["quiet_side_p"]) else None
         cfg["retry"] = bool(p.get("retry_p")) and c.chance(p["retry_p"])
         cfg["retry_pad"] = 0
         if cfg["retry"] and p.get("retry_token_pads"):
@@ -886,6 +891,9 @@ class TransportSim:
             if size > 2:
                 size = max(0, size + s.choose(5) - 2)
             fin = s.choose(4) == 1
+            if cfg.get("quiet_side") is not None and who == cfg["quiet_side"]:
+                # this endpoint's application only receives: all it ever does is update its keys
+                kind = "key_update"
             ops.append((t, i, who, kind, target, size, fin))
         ops.sort()
         self.script = ops
@@ -1035,11 +1043,21 @@ class TransportSim:
                     self.op_log.append((round(self.k.now, 6), ep.name, "key_update"))
                     ep.api("request_key_update")
                     app.key_updates += 1
-                    app.ping_uid += 1
-                    app.key_update_gate = ("wait", app.ping_uid)
-                    ep.api("send_ping", app.ping_uid)
-                    app.pings_sent.append(app.ping_uid)
-                    done = True
+                    if self.profile.get("drop_after_ku_p") and self.k.now < self.cfg["t_fair"] and \
+                            self.script_stream.chance(self.profile["drop_after_ku_p"]):
+                        ep.drop_next = 1 + self.script_stream.choose(3)
+                    if self.profile.get("ku_quiet_p") and self.script_stream.chance(self.profile["ku_quiet_p"]):
+                        # the application updates its keys and sends nothing of its own: the new phase is first
+                        # used by whatever the connection sends next (possibly only acknowledgements). No further
+                        # update by this endpoint in this run (it could not tell when RFC 9001 6.1 allows one).
+                        app.key_update_gate = ("closed", None)
+                        done = True
+                    else:
+                        app.ping_uid += 1
+                        app.key_update_gate = ("wait", app.ping_uid)
+                        ep.api("send_ping", app.ping_uid)
+                        app.pings_sent.append(app.ping_uid)
+                        done = True
         elif kind == "change_cid":
             if ep.handshake_complete:
                 self.k.trace("op", ep.name, "change_cid")
